@@ -126,6 +126,12 @@ class Pki:
         self.root_a = make_cert(subject=name("vf test root A", "vf"), pubkey=self.root_a_key.public_key(), issuer_cert=None, issuer_key=self.root_a_key, ca=True, not_after=now() + 400 * DAY)
         self.root_b_key = key()
         self.root_b = make_cert(subject=name("vf test root B", "vf"), pubkey=self.root_b_key.public_key(), issuer_cert=None, issuer_key=self.root_b_key, ca=True, not_after=now() + 400 * DAY)
+        # root C: stand-in for "a public CA of the certifi bundle" (the check points certifi.where() at cafile_c);
+        # root D: a second configured CA that only lives in a hashed directory
+        self.root_c_key = key()
+        self.root_c = make_cert(subject=name("vf public CA stand-in C", "vf"), pubkey=self.root_c_key.public_key(), issuer_cert=None, issuer_key=self.root_c_key, ca=True, not_after=now() + 400 * DAY)
+        self.root_d_key = key()
+        self.root_d = make_cert(subject=name("vf test root D", "vf"), pubkey=self.root_d_key.public_key(), issuer_cert=None, issuer_key=self.root_d_key, ca=True, not_after=now() + 400 * DAY)
         self.int_key = key()
         self.int_a = make_cert(subject=name("vf intermediate A1", "vf"), pubkey=self.int_key.public_key(), issuer_cert=self.root_a, issuer_key=self.root_a_key, ca=True)
         self.int_exp_key = key()
@@ -137,6 +143,11 @@ class Pki:
         self.cafile_a.write_bytes(pem_cert(self.root_a))
         self.cafile_b = self.dir / "root-b.pem"
         self.cafile_b.write_bytes(pem_cert(self.root_b))
+        self.cafile_c = self.dir / "certifi-standin.pem"
+        self.cafile_c.write_bytes(pem_cert(self.root_c))
+        self.cadir_d = self.dir / "cadir-d"
+        self.cadir_d.mkdir()
+        self._hashed(self.cadir_d, self.root_d)
         self.cadir_a = self.dir / "cadir-a"
         self.cadir_a.mkdir()
         self._hashed(self.cadir_a, self.root_a)
@@ -154,13 +165,15 @@ class Pki:
         (d / f"{h:08x}.{i}").write_bytes(pem_cert(cert))
 
     def leaf(self, *, cn=None, org=None, sans=None, issuer="root_a", not_before=None, not_after=None, crl_urls=None, subject=None):
-        """-> leaf certificate signed by 'root_a' | 'root_b' | 'int_a' | 'int_a_expired' | 'self'."""
+        """-> leaf certificate signed by 'root_a' | 'root_b' | 'root_c' | 'root_d' | 'int_a' | 'int_a_expired' | 'self'."""
         subj = subject if subject is not None else name(cn, org)
         if issuer == "self":
             return make_cert(subject=subj, pubkey=self.leaf_key.public_key(), issuer_cert=None, issuer_key=self.leaf_key, sans=sans, not_before=not_before, not_after=not_after, crl_urls=crl_urls)
         icert, ikey = {
             "root_a": (self.root_a, self.root_a_key),
             "root_b": (self.root_b, self.root_b_key),
+            "root_c": (self.root_c, self.root_c_key),
+            "root_d": (self.root_d, self.root_d_key),
             "int_a": (self.int_a, self.int_key),
             "int_a_expired": (self.int_a_expired, self.int_exp_key),
         }[issuer]
